@@ -361,8 +361,22 @@ fn check_iz(s: &IzSpec) -> Result<(), String> {
     Ok(())
 }
 
+#[derive(Clone, Debug, Serialize, Deserialize, Hash)]
+pub struct TailCase {
+    comment_len: u32,
+    garbage_len: u32,
+    seed: u64,
+}
+#[derive(Clone, Debug, Serialize, Deserialize, Hash)]
+pub struct PrefixCase {
+    prefix_len: u32,
+    zip64_end: bool,
+    mask: u8,
+    seed: u64,
+}
+
 pub fn run(ctx: &mut Ctx) {
-    ctx.rule("specs: proptest-generated specs for the independent builder (<=24 entries; stored/deflate/bzip2/zstd and unsupported method ids; data descriptors in 4 shapes; ZIP64 values forced in any subset, before/after other extras, local ZIP64; unknown extras; comments; DOS/Unix/other systems; any attributes and DOS time bits; shuffled central order, gaps, junk prefix, trailing garbage, ZIP64 end records); the spec is the model for every accessor and the content. Non-trivial = uses at least one such layout freedom. cpython: archives produced by CPython zipfile (seekable and unseekable sinks, force_zip64, prefix).");
+    ctx.rule("specs: proptest-generated specs for the independent builder (<=24 entries; stored/deflate/bzip2/zstd and unsupported method ids; data descriptors in 4 shapes; ZIP64 values forced in any subset, before/after other extras, local ZIP64; unknown extras; comments; DOS/Unix/other systems; any attributes and DOS time bits; shuffled central order, gaps, junk prefix, trailing garbage, ZIP64 end records); the spec is the model for every accessor and the content. Non-trivial = uses at least one such layout freedom. cpython: archives produced by CPython zipfile (seekable and unseekable sinks, force_zip64, prefix). tail_sweep / prefix_sweep: every length 0..=65535 of comment(+trailing garbage) and of prepended data (with and without ZIP64 end records) on a two-entry archive - exhaustive over the length, so no magic length of the end-record searches is left out.");
     ctx.assume("the independent builder is validated against CPython zipfile and unzip -t in the self-test");
     ctx.assume("unix_mode() model: attr==0 -> None; Unix -> attr>>16; DOS -> dir/readonly mapping; other systems -> None");
     ctx.assume("prefixed ZIP64 archives whose payload contains a fake ZIP64 end signature inside the forward-search window are skipped (counted under label skipped-ambiguous)");
@@ -387,6 +401,66 @@ pub fn run(ctx: &mut Ctx) {
         match catch(|| check_spec(spec, &b, BUFS[*bsel as usize % BUFS.len()])) {
             Ok(Ok(())) => Verdict::Pass,
             Ok(Err(m)) => Verdict::Fail(m),
+            Err(p) => Verdict::Fail(format!("PANIC while reading a well-formed archive: {p}")),
+        }
+    });
+    // Tail sweep: EVERY length 0..=65535 of what follows the end record (archive comment, or comment
+    // followed by trailing garbage), so that no single magic length of the backward end-record search
+    // (window size, block boundaries) goes untried. One small entry; the spec is the model.
+    let tail_total: u64 = 65536;
+    let stride = ctx.q(1u64, 1);
+    ctx.enumerate::<TailCase>("tail_sweep", tail_total / stride, &|i| {
+        let t = (i * stride) as u32;
+        let garbage = match i % 3 {
+            0 => 0,
+            1 => t / 2,
+            _ => t.min(17),
+        };
+        TailCase { comment_len: t - garbage, garbage_len: garbage, seed: i.wrapping_mul(0x9e3779b97f4a7c15) }
+    }, &|c: &TailCase, info: &mut Info| {
+        info.nontrivial = c.comment_len + c.garbage_len > 0;
+        info.label_if(c.garbage_len > 0, "trailing-garbage");
+        let mut spec = ArchiveSpec::plain(vec![refzip::EntrySpec::simple(b"t.txt", if c.seed & 1 == 0 { 0 } else { 8 }, refzip::Content::Text { seed: c.seed, len: 40 })]);
+        spec.comment = genf::no_sig(refzip::Content::Text { seed: c.seed ^ 1, len: c.comment_len }.expand());
+        spec.trailing = genf::no_sig(refzip::Content::Rand { seed: c.seed ^ 2, len: c.garbage_len }.expand());
+        let b = match build::build(&spec) {
+            Ok(b) => b,
+            Err(e) => return Verdict::Fail(format!("harness: {e}")),
+        };
+        match catch(|| check_spec(&spec, &b, &[4096])) {
+            Ok(Ok(())) => Verdict::Pass,
+            Ok(Err(m)) => Verdict::Fail(format!("comment of {} bytes + {} bytes of trailing garbage: {m}", c.comment_len, c.garbage_len)),
+            Err(p) => Verdict::Fail(format!("PANIC while reading a well-formed archive: {p}")),
+        }
+    });
+    // Prefix sweep: every length 0..=65535 (+ a few beyond) of prepended data in front of an archive
+    // WITH ZIP64 end records (the reader finds the ZIP64 end record by a forward search over the prefix
+    // length) and, on alternating cases, without.
+    let pre_total: u64 = 65536 + 64;
+    ctx.enumerate::<PrefixCase>("prefix_sweep", pre_total, &|i| PrefixCase { prefix_len: i as u32, zip64_end: i % 4 != 3, mask: (i / 4 % 8) as u8, seed: i.wrapping_mul(0x9e3779b97f4a7c15) | 1 }, &|c: &PrefixCase, info: &mut Info| {
+        info.nontrivial = c.prefix_len > 0;
+        info.label_if(c.zip64_end, "zip64-end-record");
+        let mut spec = ArchiveSpec::plain(vec![
+            refzip::EntrySpec::simple(b"p.txt", 8, refzip::Content::Text { seed: c.seed, len: 60 }),
+            refzip::EntrySpec::simple(b"q.bin", 0, refzip::Content::Rand { seed: c.seed, len: 9 }),
+        ]);
+        spec.prefix = refzip::Content::Rand { seed: c.seed ^ 5, len: c.prefix_len };
+        if c.zip64_end {
+            spec.zip64_end = Some([c.mask & 1 != 0, c.mask & 2 != 0, c.mask & 4 != 0]);
+        }
+        spec.comment = b"c".to_vec();
+        let b = match build::build(&spec) {
+            Ok(b) => b,
+            Err(e) => return Verdict::Fail(format!("harness: {e}")),
+        };
+        if genf::zip64_search_ambiguous(&spec, &b) || b.bytes[..b.prefix_len as usize].windows(4).any(|w| w == [0x50, 0x4b, 0x05, 0x06]) {
+            info.nontrivial = false;
+            info.label("skipped-ambiguous");
+            return Verdict::Pass;
+        }
+        match catch(|| check_spec(&spec, &b, &[4096])) {
+            Ok(Ok(())) => Verdict::Pass,
+            Ok(Err(m)) => Verdict::Fail(format!("{} bytes prepended (zip64 end records: {}): {m}", c.prefix_len, c.zip64_end)),
             Err(p) => Verdict::Fail(format!("PANIC while reading a well-formed archive: {p}")),
         }
     });
